@@ -184,7 +184,7 @@ func tokensEqual(a, b string, lineMap []int) string {
 }
 
 func c05Tokens(c *vrep.Ctx) {
-	syms := []string{"a", "B", "1", " ", "\t", "\n", "-", "–", "\"", "”", "/", "*", "#", ".", "(", "é"}
+	syms := []string{"a", "B", "1", " ", "\t", "\n", "-", "–", "\"", "”", "/", "*", "#", ".", "(", "é", "\ufffd"}
 	maxLen := c.ParamInt("maxlen", c.Pick(5, 6))
 	c.R.Rule = fmt.Sprintf("tokenizer level: ALL strings of <=%d symbols over %q; for each string every transform %d kinds applied to all eligible lines; white-box comparison of (word, line) lists and Copyright pseudo-matches; non-trivial = distinct (string, transform) pairs where the transform changed the bytes and the string has at least one word", maxLen, syms, len(vTransforms))
 	c.Bound("max_symbols", maxLen)
